@@ -177,6 +177,12 @@ Theorem C02_gate_transparent_partial : forall (N : Type) (A : Arith N) (S : Spec
   prior_value_for A S Repaired p false u = Ok v -> prior_value_for A S Repaired p true u = Ok v.
 Proof. exact @gate_transparent_repaired_partial. Qed.
 
+(* LogUniformPrior since e638353: the scale is log10 upper - log10 lower whichever branch the overflow guard takes *)
+Theorem C02_loguniform_scale : forall (fin : R -> bool) (Phi PhiInv erfinv round14 : R -> R) (lo hi : R), 0 < lo -> 0 < hi ->
+  loguniform_scale (mkArith R Rplus Rminus Rmult Rdiv Rleb Rltb 0 1 2 (sqrt 2) Reps round14 fin) (RS Phi PhiInv erfinv)
+                   LURatioGuard lo hi = log10R hi - log10R lo.
+Proof. exact loguniform_scale_guarded. Qed.
+
 (* ---- the closed ends u = 0 and u = 1 (no assumption on the special functions but the stated value) ---- *)
 
 Theorem C02_value_for_at_zero_uniform : forall F : funs, round_ok F -> forall p : prior R,
